@@ -173,6 +173,8 @@ fn subframe(b: &mut Bits, bs: u32, depth: u32, kinds: &mut Vec<String>) -> R<Vec
                 let n = x.len();
                 let mut p: i128 = 0;
                 for (j, cj) in c.iter().enumerate() { p += cj * x[n - 1 - j]; }
+                // every sample must fit the subframe depth (also keeps the recursion bounded)
+                if !fits(p + r, d) { return Err(format!("subframe sample {} does not fit {} bits", p + r, d)); }
                 x.push(p + r);
             }
         }
@@ -193,7 +195,9 @@ fn subframe(b: &mut Bits, bs: u32, depth: u32, kinds: &mut Vec<String>) -> R<Vec
                 let n = x.len();
                 let mut p: i128 = 0;
                 for (j, cj) in c.iter().enumerate() { p += cj * x[n - 1 - j]; }
-                x.push((p >> shift) + r);
+                let v = (p >> shift) + r;
+                if !fits(v, d) { return Err(format!("subframe sample {} does not fit {} bits", v, d)); }
+                x.push(v);
             }
         }
         _ => return Err(format!("reserved subframe type {:06b}", t)),
